@@ -1734,8 +1734,12 @@ def _b_range(eng, s, args, kw):
         sv = SeqV(len(r), lambda k, st, r=r: (r[k] if not is_sym(k) else lo + step * k), "range")
     else:
         if is_sym(step):
-            raise Unsupported("symbolic range step")
-        if step > 0:
+            # symbolic positive step: n is characterised without division: (n-1)*step < hi-lo <= n*step
+            eng.oblige("range-step-positive", s, to_z3(step) > 0, kind="safety")
+            n = eng.sym_int("range_len")
+            d = to_z3(hi) - to_z3(lo)
+            s.pc += [n >= 0, z3.Implies(d <= 0, n == 0), z3.Implies(d > 0, z3.And((n - 1) * to_z3(step) < d, d <= n * to_z3(step)))]
+        elif step > 0:
             n = z3.If(to_z3(hi) > to_z3(lo), (to_z3(hi) - to_z3(lo) + step - 1) / step, 0)
         else:
             n = z3.If(to_z3(lo) > to_z3(hi), (to_z3(lo) - to_z3(hi) - step - 1) / (-step), 0)
